@@ -68,7 +68,7 @@ func (vc *FuncVC) inputProbes() []probe {
 					}
 				}
 			case *types.Map:
-				ps = append(ps, probe{path, x.T, SRef, "ref", 32})
+				ps = append(ps, probe{path, x.T, SRef, "mapref", 32})
 			}
 		case StructVal:
 			st := under(t).(*types.Struct)
